@@ -70,6 +70,39 @@ def _self_attr(name: str) -> tuple:
     return ("attr", ("param", "self"), name)
 
 
+def _timeout_handler(ctx: Context):
+    """The callable `_send_lines` arms its timer with -> (qualname, index of the parameter that receives the future) or None.
+    A method (`self._handle_timeout`, also a @staticmethod) or a module-level function; found through the timer call, not by
+    name (a closure over the future takes no argument: not handled, the caller says so)."""
+    got = getattr(ctx, "_c08_timeout_handler", False)
+    if got is not False:
+        return got
+    ctx._c08_timeout_handler = None
+    try:
+        f = ctx.func(SEND)
+    except Exception:  # noqa: BLE001
+        return None
+    cfg = ctx.cfg(f.qualname)
+    T = ctx.terms
+    for n in cfg.nodes:
+        for c in ctx.calls(n):
+            if isinstance(c.func, ast.Attribute) and c.func.attr in ("call_at", "call_later") and len(c.args) >= 2:
+                h = strip_sites(T.of(cfg, n, c.args[1]))
+                q = None
+                if h[0] == "attr" and h[1] == ("param", "self") and f.cls is not None:
+                    m = ctx.prog.lookup_method(f.cls.qualname, h[2])
+                    q = m.qualname if m is not None else None
+                elif h[0] == "glob" and h[1] in ctx.prog.functions:
+                    q = h[1]
+                if q is not None:
+                    g = ctx.prog.functions[q]
+                    off = 1 if (g.cls is not None and "staticmethod" not in g.decorators) else 0
+                    if len(g.pos_params) > off:
+                        ctx._c08_timeout_handler = (q, off, h)
+                        return ctx._c08_timeout_handler
+    return None
+
+
 def _is_queue(t) -> bool:
     return isinstance(t, tuple) and len(t) == 3 and t[0] == "attr" and t[2] == QUEUE
 
@@ -661,7 +694,8 @@ def _w1_order(ctx: Context) -> None:
                     elif p.func.attr == "append" and _is_queue(recv):
                         ok = True
                     elif p.func.attr in ("call_at", "call_later") and len(p.args) >= 3 and sub in p.args[2:]:
-                        ok = T.of(cfg, n, p.args[1]) == _self_attr("_handle_timeout")
+                        th_ = _timeout_handler(ctx)
+                        ok = th_ is not None and strip_sites(T.of(cfg, n, p.args[1])) == th_[2]
                 if not ok:
                     ck.unknown("C08.W1", f"_send_lines: the request future is used in an unrecognised way (`{norm_stmt(n.text())}`): "
                                "who else may complete it is not tracked", ctx.loc(f, n))
@@ -1024,12 +1058,17 @@ def _g2(ctx: Context) -> None:
         cfg.render_path(bad) if bad else None,
     )
     # (c) the timer and its callback
-    tf = ctx.func(ON_TIMEOUT)
-    tcfg = ctx.cfg(ON_TIMEOUT)
+    th = _timeout_handler(ctx)
+    if th is None:
+        ck.unknown("C08.G2", "_send_lines: the callable the timeout timer is armed with is not a method or module-level function that takes the future (a closure?): "
+                             "what the timer does to the request is not decided", f.loc())
+        return
+    tf = ctx.func(th[0])
+    tcfg = ctx.cfg(th[0])
     timers = []
     for n in cfg.nodes:
         for c, recv, meth in _mcalls(ctx, cfg, n):
-            if meth in ("call_at", "call_later") and len(c.args) >= 2 and T.of(cfg, n, c.args[1]) == _self_attr("_handle_timeout"):
+            if meth in ("call_at", "call_later") and len(c.args) >= 2 and strip_sites(T.of(cfg, n, c.args[1])) == th[2]:
                 timers.append((n, c, recv, meth))
     if not timers:
         ck.violated("C08.G2", f"{ctx.fkey(f)}:no-timer", "_send_lines arms no timer with _handle_timeout: a lost response leaves "
@@ -1074,10 +1113,10 @@ def _g2(ctx: Context) -> None:
     # _handle_timeout: only fails a not-done future
     tparams = tf.pos_params
     timeout_classes = set()
-    if len(tparams) < 2:
+    if len(tparams) < th[1] + 1:
         ck.unknown("C08.G2", "_handle_timeout no longer takes the future as its parameter", tf.loc())
     else:
-        pf = ("param", tparams[1])
+        pf = ("param", tparams[th[1]])
         nd, done = _done_edges(ctx, tcfg, pf)
         fails = set()
         for n in tcfg.nodes:
@@ -1548,7 +1587,8 @@ def run_thorough(ctx: Context) -> None:
     if not ck.rule("C08.S1", "sweep: every completion of a future in the IP transport and every sender in the package"):
         return
     family = set(_proto_family(ctx))
-    known = {(RECV, "set_result"), (ON_TIMEOUT, "set_exception"), (CANCEL, "set_exception")}
+    th_ = _timeout_handler(ctx)
+    known = {(RECV, "set_result"), (th_[0] if th_ else ON_TIMEOUT, "set_exception"), (CANCEL, "set_exception")}
     n_sites = 0
     for g in prog.package_functions():
         if isinstance(g.node, ast.Lambda) or not g.module.name.startswith("aiohomekit.controller.ip"):
